@@ -542,6 +542,11 @@ func (s *Service) handleConn(conn net.Conn) {
 			if err := writeBytesWithLength(conn, p); err != nil {
 				return
 			}
+			if resp.Error != "" {
+				// The request is malformed or unauthorized, and the remote end
+				// has been told so. There is nothing to stream.
+				continue
+			}
 
 			// Now, start streaming the backup. Enable compressed mode
 			// regardless of whether the client requested it, so the client
